@@ -1828,6 +1828,9 @@ func cmpC16(c hx.Case, impl any, reply map[string]any) hx.Verdict {
 	if jbool(im, "heap_mismatch") {
 		md = append(md, "heap abstraction recorded in the case differs from the one re-derived from the loader")
 	}
+	if tw, ok := model["twin"].(bool); ok && !tw {
+		md = append(md, "the heap of this corpus case is no longer the heap the witness/regression theorem is about (lean/KinModel/Lemmas/C16Heaps.lean): regenerate it with tools/c16_heap2lean.py and re-prove")
+	}
 	mp := jstr(model, "outcome")
 	switch {
 	case im["hang"] != nil || im["crash"] != nil:
